@@ -234,8 +234,40 @@ Definition check_C04_core (c : c04) (l : list sx) (batch : sx) : bool :=
          | _ => true end
        else true).
 
+(** non-adaptive binnings derived from the same data (fixed_width / pretty / integer): every entered value lies inside the
+    observed edges of its axis (right edge included only where physt says so), nothing is missed, total = number of rows *)
+Definition check_derived (c : c04) (dv : sx) : bool :=
+  match dv with
+  | SS "skip" => true
+  | LL items =>
+      forallb (fun it =>
+        match it with
+        | LL [ed; incl; tot; mis] =>
+            match d_list (d_list d_q) ed, d_list d_bool incl, d_q tot, d_q mis with
+            | Some ed, Some incl, Some tot, Some mis =>
+                let cols := entered_cols (length ed) (z_ops c) in
+                Qceqb tot (qz (Z.of_nat (length (hd (@nil Qc) cols)))) && Qceqb mis 0 &&
+                all2 (fun (p : list Qc * bool) (vals : list Qc) =>
+                        match fst p with
+                        | [] => match vals with [] => true | _ => false end
+                        | e0 :: _ => forallb (fun v => Qcleb e0 v && (if snd p then Qcleb v (last (fst p) 0) else Qcltb v (last (fst p) 0))) vals
+                        end) (combine ed incl) cols
+            | _, _, _, _ => false end
+        | _ => false end) items
+  | _ => false end.
+
 Definition check_C04 (c : c04) (obs : sx) : bool :=
   match obs with
+  | LL [LL l; batch; init; derived] =>
+      check_C04_core c l batch && check_derived c derived &&
+      match d_list (d_list d_q) init, last l (LL []) with
+      | Some ie, LL [_; ed; _; _; _] =>
+          match d_list (d_list d_q) ed with
+          | Some fe => if forallb (fun o => match snd o with RRefused => false | _ => true end) (arun (z_init c) (z_ops c))
+                       then check_span_float c ie fe else true
+          | None => false end
+      | Some _, _ => true
+      | None, _ => false end
   | LL [LL l; batch; init] =>
       check_C04_core c l batch &&
       match d_list (d_list d_q) init, last l (LL []) with
